@@ -9,7 +9,7 @@ import ast
 from fractions import Fraction
 from typing import Dict, List, Optional, Tuple
 
-from ..core import AnalysisError, Loc, Report, Source, norm
+from ..core import IdiomNotRecognised, AnalysisError, Loc, Report, Source, norm
 from ..ivcong import (AVal, EntryInterpreter, Undecided, congruent_to_x, within)
 from ..guards import atoms, path_conditions
 from ..normalize import canon, flat
@@ -173,7 +173,7 @@ def analyse(src: Source) -> List[Report]:
             # a length is taken over unchanged from a parameter; anything computed is a derived (half-length) global
             name_kind.setdefault(name, ("L" if isinstance(elt, ast.Name) else "H", shape))
     if not any(k == "L" for k, _ in name_kind.values()) or not any(k == "H" for k, _ in name_kind.values()):
-        raise AnalysisError("box-length globals (length and half-length) not found in any setter")
+        raise IdiomNotRecognised("box-length globals (length and half-length) not found in any setter")
     for f, fn, stores in writers:
         non_none = {n: s for n, s in stores.items() if not (isinstance(s[1].value, ast.Constant)
                                                              and s[1].value.value is None)}
